@@ -6,7 +6,8 @@ CONSTANTS
   MaxM = 1
   AllowArm = FALSE
   Patched = TRUE
-  Families <- FamThorough
+  RescanShortcut <- ShortcutOn
+  Families <- FamNestGate
 SPECIFICATION ImplShapesSpec
 INVARIANT RcExact
 INVARIANT RootedIffExternal
